@@ -77,7 +77,7 @@ namespace va
     const BMat& bpattern;
     std::vector<int> coloring;
 
-    struct Par { DT nu = 0, theta = 0, beta = 0, frechet = 0; bool defo = false; int field = 0; };
+    struct Par { DT nu = 0, theta = 0, beta = 0, frechet = 0, sd = 0; bool defo = false; int field = 0; };
 
     BVec conv_vector(int n)
     {
@@ -110,21 +110,23 @@ namespace va
     template<class B_> static void set_par(B_& b, const Par& q)
     {
       b.deformation = q.defo; b.nu = q.nu; b.theta = q.theta; b.beta = q.beta; b.frechet_beta = q.frechet;
-      b.sd_delta = DT(0); b.sd_nu = DT(0); b.sd_v_norm = DT(0);
+      b.sd_delta = q.sd; b.sd_nu = (q.sd != DT(0)) ? DT(1) : DT(0); b.sd_v_norm = DT(0);
     }
+    // streamline diffusion needs the norm of the convection field: every route computes it through its own set_sd_v_norm
+    template<class B_> static void set_sd(B_& b, const Par& q, const BVec& cv) { if(q.sd != DT(0)) b.set_sd_v_norm(cv); }
 
     // ---- scalar routes ------------------------------------------------------------------------------------
     void burgers_scalar(Mat& m, const Par& q, const Cubature::DynamicFactory& cf)
     {
       Assembly::BurgersAssembler<DT, IT, dim> b; set_par(b, q);
-      BVec cv = conv_vector(q.field);
+      BVec cv = conv_vector(q.field); set_sd(b, q, cv);
       b.assemble_scalar_matrix(m, cv, ctx.test, cf, DT(1));
     }
     void burgersjob_scalar(Mat& m, const Par& q, const String& cub)
     {
       BVec cv = conv_vector(q.field);
       Assembly::BurgersScalarMatrixAssemblyJob<Mat, SpaceT, BVec> job(m, cv, ctx.test, cub);
-      set_par(job, q);
+      set_par(job, q); set_sd(job, q, cv);
       dom.assemble(job);
     }
     template<class Op_> void classic_scalar(Mat& m, Op_& op, const Cubature::DynamicFactory& cf, DT alpha)
@@ -234,14 +236,14 @@ namespace va
     void burgers_blocked(BMat& m, const Par& q, const Cubature::DynamicFactory& cf)
     {
       Assembly::BurgersAssembler<DT, IT, dim> b; set_par(b, q);
-      BVec cv = conv_vector(q.field);
+      BVec cv = conv_vector(q.field); set_sd(b, q, cv);
       b.assemble_matrix(m, cv, ctx.test, cf, DT(1));
     }
     void burgersjob_blocked(BMat& m, const Par& q, const String& cub)
     {
       BVec cv = conv_vector(q.field);
       Assembly::BurgersBlockedMatrixAssemblyJob<BMat, SpaceT, BVec> job(m, cv, ctx.test, cub);
-      set_par(job, q);
+      set_par(job, q); set_sd(job, q, cv);
       dom.assemble(job);
     }
     void common_blocked(BMat& m, const std::string& name, bool domain, const Cubature::DynamicFactory& cf, const String& cub, DT alpha)
@@ -375,6 +377,139 @@ namespace va
       obs["twice"] = twice;
       return obs;
     }
+
+    // ---- Burgers parameter combinations (kind "bpar") ------------------------------------------------------
+    void voxel_blocked_par(BMat& m, const Par& q, const Cubature::DynamicFactory& cf)
+    {
+#if C16_VOXEL
+      if constexpr (voxel_ok)
+      {
+        VoxelAssembly::VoxelBurgersAssembler<SpaceT, DT, IT> vox(ctx.test, coloring);
+        set_par(vox, q);
+        BVec cv = conv_vector(q.field); set_sd(vox, q, cv);
+        vox.assemble_matrix1(m, cv, ctx.test, cf, DT(1));
+        return;
+      }
+#endif
+      (void)m; (void)q; (void)cf;
+      throw std::runtime_error("voxel route is not compiled for this space");
+    }
+    // the matrix of a parameter set on a route, flattened (scalar: nnz values, blocked: nnz * dim * dim values)
+    std::vector<DT> par_flat(const std::string& route, bool blocked, const Par& q, const Cubature::DynamicFactory& cf, const String& cub)
+    {
+      std::vector<DT> f;
+      if(blocked)
+      {
+        BMat m = bpattern.clone(LAFEM::CloneMode::Layout); m.format();
+        if(route == "burgers") burgers_blocked(m, q, cf);
+        else if(route == "burgersjob") burgersjob_blocked(m, q, cub);
+        else if(route == "voxel") voxel_blocked_par(m, q, cf);
+        else throw std::runtime_error("bpar: route " + route);
+        flat(m, f);
+      }
+      else
+      {
+        Mat m = pattern.clone(LAFEM::CloneMode::Layout); m.format();
+        if(route == "burgers") burgers_scalar(m, q, cf);
+        else if(route == "burgersjob") burgersjob_scalar(m, q, cub);
+        else throw std::runtime_error("bpar: scalar route " + route);
+        f.assign(m.val(), m.val() + m.used_elements());
+      }
+      return f;
+    }
+    static void set_one(Par& q, const std::string& p, DT v)
+    {
+      if(p == "nu") q.nu = v; else if(p == "theta") q.theta = v; else if(p == "beta") q.beta = v;
+      else if(p == "frechet") q.frechet = v; else if(p == "sd") q.sd = v; else throw std::runtime_error("bpar: parameter " + p);
+    }
+    // rigorous magnitude of the entries of one term (see vasm16.hpp); streamline diffusion: local_delta <= 2 sd_delta h_T |v_T| / |v|_max
+    // <= 2 sd_delta * diam, |(v.grad phi_j)(v.grad phi_i)| summed <= |v|^2 Lmax
+    double term_mag(const std::string& p, DT v, int field) const
+    {
+      const double vm = field_max(field, ctx.w.R, dim) * std::sqrt(double(dim));
+      const double a = std::fabs(double(v));
+      if(p == "nu") return 2.0 * a * ctx.ti.Lmax;
+      if(p == "theta") return a * ctx.ti.Mmax;
+      if(p == "beta") return a * vm * std::sqrt(ctx.ti.Mmax * ctx.ti.Lmax);
+      if(p == "frechet") return a * double(dim) * ctx.ti.Mmax;
+      return 2.0 * a * (2.0 * ctx.w.R * double(dim)) * vm * vm * ctx.ti.Lmax;
+    }
+
+    vj::Value bpar_job(const vj::Value& job)
+    {
+      vj::Value obs = vj::Value::object();
+      const String cub = "auto-degree:" + stringify(job["deg"].as_int());
+      Cubature::DynamicFactory cf(cub);
+      const bool blocked = job["blocked"].as_bool();
+      const int field = int(job["field"].as_int());
+      const int bd = blocked ? dim : 1;
+      Par q; q.defo = job["defo"].as_bool(); q.field = field;
+      std::vector<std::pair<std::string, DT>> on;
+      double mag = 0.0;
+      for(std::size_t k = 0; k < job["on"].size(); ++k)
+      {
+        const std::string p = job["on"][k].as_str(); const DT v = DT(job["vals"][k].as_int()) / DT(4);
+        on.push_back(std::make_pair(p, v)); set_one(q, p, v); mag += term_mag(p, v, field);
+      }
+      const double tole = CK * EPS * mag;
+      const std::string ref = job["ref"].as_str();
+      const vj::Value& rs = job["routes"];
+      std::map<std::string, std::vector<DT>> M;
+      for(std::size_t k = 0; k < rs.size(); ++k) M[rs[k].as_str()] = par_flat(rs[k].as_str(), blocked, q, cf, cub);
+      const std::vector<DT>& A = M.at(ref);
+      bool nz = false; for(DT x : A) if(x != 0.0) nz = true;
+      obs["nz"] = nz;
+      vj::Value routes = vj::Value::array(), sum = vj::Value::array(), sd = vj::Value::array();
+      for(const auto& kv : M)
+      {
+        if(kv.first != ref) routes.push(cmp_arrays(kv.first.c_str(), A.data(), kv.second.data(), Index(A.size()), 1.0, 2 * tole));
+        // SumOfTerms on the same route
+        std::vector<DT> acc(A.size(), DT(0));
+        for(const auto& t : on)
+        {
+          Par q1; q1.field = field; q1.defo = (t.first == "nu") ? q.defo : false; set_one(q1, t.first, t.second);
+          const std::vector<DT> f = par_flat(kv.first, blocked, q1, cf, cub);
+          for(std::size_t i = 0; i < acc.size(); ++i) acc[i] += f[i];
+        }
+        vj::Value sv = cmp_arrays(kv.first.c_str(), acc.data(), kv.second.data(), Index(A.size()), 1.0, 4 * tole);
+        sum.push(sv);
+        // the streamline diffusion operator alone: symmetric, constants in the kernel, positive on x_1, linear in sd_delta
+        if(on.size() == 1 && on[0].first == "sd")
+        {
+          const std::vector<DT>& S = kv.second;
+          auto at = [&](Index k, int r, int c) -> double { return S[(k * Index(bd) + Index(r)) * Index(bd) + Index(c)]; };
+          const Index n = pattern.rows();
+          double asym = 0.0, ker = 0.0; LD quad = 0; double W = 0.0;
+          std::vector<long long> e1(std::size_t(dim), 0); e1[0] = 1;
+          const std::vector<double> w = interpolate(ctx.w, ctx.test, ctx.tname, e1);
+          for(Index i = 0; i < n; ++i)
+          {
+            std::vector<LD> rowsum(std::size_t(bd * bd), 0);
+            for(IT k = pattern.row_ptr()[i]; k < pattern.row_ptr()[i + 1]; ++k)
+            {
+              const Index jx = pattern.col_ind()[k];
+              IT kt = pattern.row_ptr()[jx]; while(kt < pattern.row_ptr()[jx + 1] && pattern.col_ind()[kt] != i) ++kt;
+              for(int r = 0; r < bd; ++r) for(int c = 0; c < bd; ++c)
+              {
+                asym = std::max(asym, kt < pattern.row_ptr()[jx + 1] ? std::fabs(at(k, r, c) - at(kt, c, r)) : HUGE_VAL);
+                rowsum[std::size_t(r * bd + c)] += LD(at(k, r, c));
+              }
+              quad += LD(w[i]) * LD(at(k, 0, 0)) * LD(w[jx]); W += std::fabs(w[i]) * std::fabs(w[jx]);
+            }
+            for(LD x : rowsum) ker = std::max(ker, std::fabs(double(x)));
+          }
+          Par q2 = q; q2.sd = DT(2) * q.sd;
+          const std::vector<DT> S2 = par_flat(kv.first, blocked, q2, cf, cub);
+          vj::Value lin = cmp_arrays(kv.first.c_str(), S.data(), S2.data(), Index(S.size()), 2.0, 4 * tole);
+          vj::Value o = vj::Value::object();
+          o["r"] = kv.first; o["sym"] = (asym <= 2 * tole); o["ker"] = (ker <= tole * double(max_row_len(pattern)));
+          o["pos"] = (double(quad) > 16.0 * tole * W); o["lin"] = lin["within"];
+          sd.push(o);
+        }
+      }
+      obs["routes"] = routes; obs["pairs"] = vj::Value::array(); obs["twice"] = vj::Value::array(); obs["sum"] = sum; obs["sd"] = sd;
+      return obs;
+    }
   };
 
   template<class W_> void dump_mesh_min(const W_& w, vj::Value& out)
@@ -434,7 +569,8 @@ namespace va
     {
       vj::Value j = vj::Value::object();
       j["spec"] = jl[k];
-      j["obs"] = (jl[k]["k"].as_str() == "mat") ? run.mat_job(jl[k]) : run.blk_job(jl[k]);
+      const std::string kind = jl[k]["k"].as_str();
+      j["obs"] = (kind == "mat") ? run.mat_job(jl[k]) : (kind == "bpar") ? run.bpar_job(jl[k]) : run.blk_job(jl[k]);
       jobs.push(j);
     }
     out["jobs"] = jobs;
@@ -523,6 +659,30 @@ namespace va
           for(IT k = G.row_ptr()[i]; k < G.row_ptr()[i + 1]; ++k)
             for(int m = 0; m < dim; ++m) mg = std::max(mg, std::fabs(G.val()[k][m][0] - sd * s_at(m, G.col_ind()[k], i)));
         o["g"] = (mg <= tol); note_margin(mg, tol);
+        // a repeated call into the same, already filled matrices: both assemblers document overwrite semantics
+        vj::Value rep = vj::Value::array();
+        {
+          MatB B1 = B.clone(LAFEM::CloneMode::Deep); MatD D1 = D.clone(LAFEM::CloneMode::Deep);
+          Assembly::GradPresDivVeloAssembler::assemble(B, D, velo, pres, cf, sb, sd);      // onto the first result
+          bool same = true;
+          for(Index k = 0; k < B.used_elements(); ++k) for(int m = 0; m < dim; ++m) if(B.val()[k][m][0] != B1.val()[k][m][0]) same = false;
+          for(Index k = 0; k < D.used_elements(); ++k) for(int m = 0; m < dim; ++m) if(D.val()[k][0][m] != D1.val()[k][0][m]) same = false;
+          for(Index k = 0; k < B.used_elements(); ++k) for(int m = 0; m < dim; ++m) B.val()[k][m][0] = DT(7);
+          for(Index k = 0; k < D.used_elements(); ++k) for(int m = 0; m < dim; ++m) D.val()[k][0][m] = DT(-3);
+          Assembly::GradPresDivVeloAssembler::assemble(B, D, velo, pres, cf, sb, sd);      // onto foreign contents
+          for(Index k = 0; k < B.used_elements(); ++k) for(int m = 0; m < dim; ++m) if(B.val()[k][m][0] != B1.val()[k][m][0]) same = false;
+          for(Index k = 0; k < D.used_elements(); ++k) for(int m = 0; m < dim; ++m) if(D.val()[k][0][m] != D1.val()[k][0][m]) same = false;
+          vj::Value r1 = vj::Value::object(); r1["r"] = "gpdv"; r1["same"] = same; rep.push(r1);
+          MatB G1 = G.clone(LAFEM::CloneMode::Deep);
+          Assembly::GradOperatorAssembler::assemble(G, pres, velo, cf, sd);
+          bool sameg = true;
+          for(Index k = 0; k < G.used_elements(); ++k) for(int m = 0; m < dim; ++m) if(G.val()[k][m][0] != G1.val()[k][m][0]) sameg = false;
+          for(Index k = 0; k < G.used_elements(); ++k) for(int m = 0; m < dim; ++m) G.val()[k][m][0] = DT(5);
+          Assembly::GradOperatorAssembler::assemble(G, pres, velo, cf, sd);
+          for(Index k = 0; k < G.used_elements(); ++k) for(int m = 0; m < dim; ++m) if(G.val()[k][m][0] != G1.val()[k][m][0]) sameg = false;
+          vj::Value r2 = vj::Value::object(); r2["r"] = "gradop"; r2["same"] = sameg; rep.push(r2);
+        }
+        o["rep"] = rep;
         sc.push(o);
       }
       vj::Value j = vj::Value::object(), obs = vj::Value::object();
